@@ -772,6 +772,14 @@ theorem zerosLike_ok (v : Val) : ValOK (zerosLike v) := by
     rw [hc.2]
     exact zeroCell_typed v.dt
 
+theorem zerosRows_ok (n : Nat) (v : Val) : ValOK (zerosRows n v) := by
+  constructor
+  · simp [zerosRows, prod]
+  · intro c hc
+    simp only [zerosRows, List.mem_replicate] at hc
+    rw [hc.2]
+    exact zeroCell_typed v.dt
+
 theorem Kept.trans {κ κ1 : Nat → String} {s s1 s2 : State} (hext : Ext κ s κ1 s1)
     (hobjs : s1.objs.length = s.objs.length) (hsys : s1.syss = s.syss) (h2 : Kept κ1 s1 s2) : Kept κ s s2 := by
   obtain ⟨κ2, hinv2, hext2, hobjs2, hsys2⟩ := h2
@@ -831,10 +839,10 @@ theorem inv_propAtype {κ : Nat → String} {s : State} (h : InvK κ s) (o : Nat
             -- the optional creation of the column
             have hstep : Post (match (s1.obj o).find key with
                 | some _ => pure ()
-                | none => viewSet o key (.lit (zerosLike v)) : M Unit) s1 (fun _ s2 => Kept κ s1 s2) := by
+                | none => viewSet o key (.lit (zerosRows (s1.obj o).natoms v)) : M Unit) s1 (fun _ s2 => Kept κ s1 s2) := by
               split
               · exact Kept.refl h
-              · exact Post.mono (inv_viewSet h o key _ (zerosLike_ok v)) (fun _ _ hq => hq.1)
+              · exact Post.mono (inv_viewSet h o key _ (zerosRows_ok _ v)) (fun _ _ hq => hq.1)
             apply Post.mono hstep
             intro r s2 hk2
             cases r with
